@@ -83,6 +83,7 @@ def main():
     write_evidence(pid, tier, "proof", cov, spec.get("assumptions", []) + TRUSTED, wall, len(violations))
     if violations:
         seen = set()
+        violations.sort(key=lambda v: 0 if v[1] else 1)
         for payload, found in violations[:5]:
             path = write_replay(pid, payload)
             if path in seen:
